@@ -375,6 +375,30 @@ impl<'a> Cmp<'a> {
                             if !content["constant_value"].is_null() {
                                 self.fail("constant", &p, "self.size member carries a constant".into(), content);
                             }
+                            // bytes up to and including the size member (everything before it is of fixed size)
+                            let mut sizer = wowm_model::sizes::Sizer::new(&self.t.u, self.ns);
+                            let mut before = 0u128;
+                            let mut exact = true;
+                            for m in &c.members {
+                                if let Member::Field(g) = m {
+                                    if let TypeRef::Simple { name, upcast } = &g.ty {
+                                        let iv = sizer.type_interval(name, upcast.as_deref());
+                                        exact &= iv.min == iv.max;
+                                        before += iv.min;
+                                    } else {
+                                        exact = false;
+                                    }
+                                    if g.name == f.name {
+                                        break;
+                                    }
+                                } else {
+                                    exact = false;
+                                    break;
+                                }
+                            }
+                            if exact && content["size_of_fields_before_size"].as_u64().map(|x| x as u128) != Some(before) {
+                                self.fail("self-size", &p, format!("the size member and what precedes it occupy {} bytes, IR size_of_fields_before_size is {}", before, content["size_of_fields_before_size"]), content);
+                            }
                             if content["size_of_fields_before_size"].is_null() {
                                 self.fail("self-size", &p, "self.size member has no size_of_fields_before_size".into(), content);
                             }
@@ -519,6 +543,12 @@ impl<'a> Cmp<'a> {
             self.facts += 1;
             if ir["file_info"]["start_position"].as_u64() != Some(c.span.line as u64) {
                 self.fail("file-position", path, format!("wowm object starts at line {}, IR start_position {}", c.span.line, ir["file_info"]["start_position"]), &ir["file_info"]);
+            }
+            // manual_size_subtraction: login messages with a size member subtract everything up to and including it
+            self.facts += 1;
+            let want_sub = if c.kind.is_login() { fs.iter().find(|f| f.value.as_deref() == Some("self.size")).map(|_| ()) } else { None };
+            if want_sub.is_some() != !ir["manual_size_subtraction"].is_null() {
+                self.fail("self-size", path, format!("login message with self.size member: {}, IR manual_size_subtraction: {}", want_sub.is_some(), ir["manual_size_subtraction"]), &Value::Null);
             }
         }
     }
